@@ -127,12 +127,16 @@ func drawRSA(t *rapid.T, label string, sizes []int) rsaEntry {
 	var bits int
 	if sizes == nil {
 		switch k := rapid.IntRange(0, 99).Draw(t, label+"_modulus_kind"); {
-		case k < 60:
+		case k < 50:
 			bits = 2048
-		case k < 85:
+		case k < 70:
 			bits = 3072
-		default:
+		case k < 80:
 			bits = 4096
+		default:
+			// bit lengths that are not a multiple of 8: the byte length of n, d and the signatures is
+			// ceil(bits/8), and 2049 = 1 mod 8 makes the PSS encoded message shorter than the modulus
+			bits = rapid.SampledFrom([]int{2049, 2050, 2055}).Draw(t, label+"_modulus_bits")
 		}
 	} else {
 		bits = rapid.SampledFrom(sizes).Draw(t, label+"_modulus_bits")
